@@ -36,7 +36,7 @@ ASSUMPTIONS = [
     "forced refresh: |2KE/(dof kT) - 1| <= 1e-9 for T >= 1 K (the implementation adds 1e-15 eV to the temperature before scaling)",
     "normality: |z|>5 on mean/variance or KS p<1e-6 flags; re-measured once with 4x the draws",
 ]
-REQUIRED = {"order_runs_with_reassigned_time_step": 20, "forced_refresh_with_constraints": 30, "reversibility_runs": 150, "reversibility_runs_with_used_integrator": 50, "order_runs_with_used_integrator": 20, "order_triples": 30, "refresh_batches": 4, "forced_refresh": 100, "hmc_trials": 300, "ke_checked_at_criteria": 300}
+REQUIRED = {"reversibility_runs_with_rigid_bonds": 15, "order_runs_with_reassigned_time_step": 20, "forced_refresh_with_constraints": 30, "reversibility_runs": 150, "reversibility_runs_with_used_integrator": 50, "order_runs_with_used_integrator": 20, "order_triples": 30, "refresh_batches": 4, "forced_refresh": 100, "hmc_trials": 300, "ke_checked_at_criteria": 300}
 SHARD_TIMEOUT = {"quick": 900, "thorough": 3000}
 
 
@@ -101,6 +101,13 @@ def run_reverse(spec, rec):
         dt_fs = wdt / omega / FS
         steps = int(rng.choice([1, 2, 7, 40, 150, 400]))
         appl = bool(rng.random() < 0.5)
+        if appl and len(atoms) >= 4 and rng.random() < 0.3:
+            # rigid bonds: a constraint that really moves the predicted positions at every step (SHAKE / RATTLE style)
+            from ase.constraints import FixBondLengths
+
+            atoms.set_constraint(FixBondLengths([[0, 1], [2, 3]]))
+            atoms.set_momenta(atoms.get_momenta())  # project the momenta onto the constraint surface
+            rec.count("reversibility_runs_with_rigid_bonds")
         ctx = make_ctx(atoms, derive_seed("r", i))
         x0, p0 = atoms.get_positions(), atoms.get_momenta()
         integ = Verlet(dt=dt_fs, max_steps=steps, apply_constraints=appl)
@@ -159,7 +166,7 @@ def run_reverse(spec, rec):
         if moved == 0:
             rec.viol("C14/integrator-does-not-move", "integration left positions unchanged although momenta are non-zero", wit)
         elif ex_ > tol or ep > tol:
-            rec.viol(f"C14/not-reversible/apply_constraints={appl}" + ("/integrator-used-before" if used else ""), f"forward-flip-forward misses the start by {ex_:.3g} (positions), {ep:.3g} (momenta)", {**wit, "err_pos": ex_, "err_mom": ep})
+            rec.viol(f"C14/not-reversible/apply_constraints={appl}" + ("/integrator-used-before" if used else "") + ("/rigid-bonds" if atoms.constraints else ""), f"forward-flip-forward misses the start by {ex_:.3g} (positions), {ep:.3g} (momenta)", {**wit, "err_pos": ex_, "err_mom": ep})
         rec.sample({**wit, "err_pos": ex_, "err_mom": ep}, cap=2)
 
 
